@@ -216,6 +216,15 @@ func byteCorpus(x *mon.Ctx) []bcase {
 		{0, 65535, 0}, {0, 65536, 0}, {32, 65537, 5}, {65535, 70000, 0}, {65534, 65536, 1}, {0, 131072, 0}, {7, 1<<20 + 3, 0}, {0, 1 << 24, 0}} {
 		add("pattern", fmt.Sprintf("auth%d-chain%d-extra%d", sh[0], sh[1], sh[2]), patternParts(i, sh[0], sh[1], sh[2]).Bytes())
 	}
+	// nested sizes that straddle 2^24 (signed data size = certification data length + 590 + auth data length: the three size
+	// fields fall on different sides of the boundary), a 64 KiB carry above it, 17 MiB (thorough: 32 MiB)
+	big := [][3]int{{0, 1<<24 - 591, 0}, {0, 1<<24 - 590, 0}, {0, 1<<24 - 589, 0}, {0, 1<<24 - 290, 0}, {5, 1<<24 - 1, 0}, {0, 1<<24 + 65536 - 590, 0}, {0, 17<<20 - 590, 0}, {0, 17 << 20, 3}}
+	if !x.Quick() {
+		big = append(big, [3]int{0, 32 << 20, 0}, [3]int{9, 32<<20 - 583, 0}, [3]int{0, 1<<25 + 1, 1})
+	}
+	for i, sh := range big {
+		add("pattern-16MiB", fmt.Sprintf("auth%d-chain%d-extra%d", sh[0], sh[1], sh[2]), patternParts(100+i, sh[0], sh[1], sh[2]).Bytes())
+	}
 	// degenerate inputs
 	add("degenerate", "nil", nil)
 	add("degenerate", "empty", []byte{})
